@@ -24,6 +24,9 @@
   * `shRun_append`, `shEnd_last`   a run over `a ++ b` = run over `a`, then run over `b` from the state and electronics the first part ended
                          with: a restart reproduces the uninterrupted run iff it reconstructs that pair                       (C13)
 
+  * `shRun_drop`, `ehRun_append/_drop`, `cumRun_append/_drop`   the same for every interruption point as a statement about the log
+                         (`drop`), and for Ehrenfest and cumulative-FSSH runs                                                  (C13)
+
   The tie to the code is the whole-run correspondence (`harness/runcommon.py`, op `shrun`): the real TrajectorySH is run,
   what it reads from outside at each step is recorded, and the model has to reproduce every snapshot and every event.
 -/
@@ -423,6 +426,65 @@ theorem shEnd_last (m : Fin n → ℝ) (dt : ℝ) (e : Elec ℝ N n) (s : SH ℝ
       simp only [shRun, shEnd] at this ⊢
       rw [List.getLast_cons (by simp)]
       exact this
+
+/-- a restart takes up the uninterrupted run at **every** interruption point: what the restarted run logs is exactly what the
+    uninterrupted run logs after the first `a.length` steps -/
+theorem shRun_drop (m : Fin n → ℝ) (dt : ℝ) (e : Elec ℝ N n) (s : SH ℝ N n) (a b : List (StepIn ℝ N n)) :
+    (shRun m dt e s (a ++ b)).drop a.length = shRun m dt (shEnd m dt e s a).1 (shEnd m dt e s a).2 b := by
+  rw [shRun_append, ← shRun_length m dt e s a, List.drop_left]
+
+/-- the same for Ehrenfest runs … -/
+noncomputable def ehEnd (m : Fin n → ℝ) (dt : ℝ) (e : Elec ℝ N n) (s : SH ℝ N n) : List (StepIn ℝ N n) → Elec ℝ N n × SH ℝ N n
+  | [] => (e, s)
+  | inp :: rest => ehEnd m dt inp.elec (ehStep m dt e inp s).1 rest
+
+theorem ehRun_length (m : Fin n → ℝ) (dt : ℝ) (e : Elec ℝ N n) (s : SH ℝ N n) (inps : List (StepIn ℝ N n)) :
+    (ehRun m dt e s inps).length = inps.length := by
+  induction inps generalizing e s with
+  | nil => simp [ehRun]
+  | cons inp rest ih => simp [ehRun, ih]
+
+theorem ehRun_append (m : Fin n → ℝ) (dt : ℝ) (e : Elec ℝ N n) (s : SH ℝ N n) (a b : List (StepIn ℝ N n)) :
+    ehRun m dt e s (a ++ b) = ehRun m dt e s a ++ ehRun m dt (ehEnd m dt e s a).1 (ehEnd m dt e s a).2 b := by
+  induction a generalizing e s with
+  | nil => simp [ehRun, ehEnd]
+  | cons inp rest ih => simp [ehRun, ehEnd, ih]
+
+theorem ehRun_drop (m : Fin n → ℝ) (dt : ℝ) (e : Elec ℝ N n) (s : SH ℝ N n) (a b : List (StepIn ℝ N n)) :
+    (ehRun m dt e s (a ++ b)).drop a.length = ehRun m dt (ehEnd m dt e s a).1 (ehEnd m dt e s a).2 b := by
+  rw [ehRun_append, ← ehRun_length m dt e s a, List.drop_left]
+
+/-- … and for cumulative FSSH, whose restart state also holds the accumulated probability and the current threshold -/
+noncomputable def cumEnd (m : Fin n → ℝ) (dt : ℝ) (e : Elec ℝ N n) (sc : SH ℝ N n × CumState ℝ) :
+    List (StepIn ℝ N n × CumIn ℝ) → Elec ℝ N n × (SH ℝ N n × CumState ℝ)
+  | [] => (e, sc)
+  | (inp, ci) :: rest => cumEnd m dt inp.elec (cumStep m dt e inp ci sc).1 rest
+
+theorem cumRun_length (m : Fin n → ℝ) (dt : ℝ) (e : Elec ℝ N n) (sc : SH ℝ N n × CumState ℝ)
+    (inps : List (StepIn ℝ N n × CumIn ℝ)) : (cumRun m dt e sc inps).length = inps.length := by
+  induction inps generalizing e sc with
+  | nil => simp [cumRun]
+  | cons inp rest ih => obtain ⟨i, c⟩ := inp; simp [cumRun, ih]
+
+theorem cumRun_append (m : Fin n → ℝ) (dt : ℝ) (e : Elec ℝ N n) (sc : SH ℝ N n × CumState ℝ)
+    (a b : List (StepIn ℝ N n × CumIn ℝ)) :
+    cumRun m dt e sc (a ++ b) = cumRun m dt e sc a ++ cumRun m dt (cumEnd m dt e sc a).1 (cumEnd m dt e sc a).2 b := by
+  induction a generalizing e sc with
+  | nil => simp [cumRun, cumEnd]
+  | cons inp rest ih => obtain ⟨i, c⟩ := inp; simp [cumRun, cumEnd, ih]
+
+theorem cumRun_drop (m : Fin n → ℝ) (dt : ℝ) (e : Elec ℝ N n) (sc : SH ℝ N n × CumState ℝ)
+    (a b : List (StepIn ℝ N n × CumIn ℝ)) :
+    (cumRun m dt e sc (a ++ b)).drop a.length = cumRun m dt (cumEnd m dt e sc a).1 (cumEnd m dt e sc a).2 b := by
+  rw [cumRun_append, ← cumRun_length m dt e sc a, List.drop_left]
+
+/-- single-surface MD: `j + k` steps are `k` steps from the position and velocity reached after `j` (the force is a function of
+    the position, so position and velocity are all a restart has to reconstruct) -/
+theorem verletRun_add (F : (Fin n → ℝ) → (Fin n → ℝ)) (m : Fin n → ℝ) (dt : ℝ) (j k : ℕ) (xv : (Fin n → ℝ) × (Fin n → ℝ)) :
+    verletRun F m dt (j + k) xv = verletRun F m dt k (verletRun F m dt j xv) := by
+  induction j generalizing xv with
+  | zero => simp [verletRun]
+  | succ j ih => rw [Nat.succ_add]; simp only [verletRun]; exact ih _
 
 /-! ### C02 along A-FSSH runs -/
 
